@@ -248,6 +248,8 @@ class UnitSystem:
         ]
         self.registry = registry
         self.base_units = self.units_map.copy()
+        # dimensions whose unit was synthesised from the base units on lookup
+        self._synthesised = set()
         unit_system_registry[name] = self
         self.name = name
 
@@ -262,6 +264,7 @@ class UnitSystem:
                 raise MissingMKSCurrent(self.name)
             units = _get_system_unit_string(key, self.units_map)
             self.units_map[key] = parse_unyt_expr(units)
+            self._synthesised.add(key)
             return Unit(units, registry=self.registry)
         return Unit(self.units_map[key], registry=self.registry)
 
@@ -273,6 +276,13 @@ class UnitSystem:
         if self.units_map[cmks] is None and cmks in key.free_symbols:
             raise MissingMKSCurrent(self.name)
         self.units_map[key] = parse_unyt_expr(str(value))
+        self._synthesised.discard(key)
+        if key in self.base_units:
+            # units synthesised from the previous base unit are out of date
+            self.base_units[key] = self.units_map[key]
+            for dim in self._synthesised:
+                del self.units_map[dim]
+            self._synthesised.clear()
 
     def __str__(self):
         return self.name
